@@ -148,6 +148,65 @@ def concurrent_saves(base):
     return list(seen.values()), n
 
 
+LOCALE_SCRIPT = r"""
+import asyncio, json, sys
+from aiomysensors.model.node import Node
+from aiomysensors.persistence import Persistence
+mode, path = sys.argv[1], sys.argv[2]
+def plain(nodes):
+    return {str(k): [n.node_id, n.node_type, n.protocol_version, n.sketch_name, n.sketch_version, n.battery_level,
+                     {str(c): [ch.child_type, ch.description, {str(t): v for t, v in ch.values.items()}] for c, ch in n.children.items()}]
+            for k, n in nodes.items()}
+reg = {1: Node(1, 17, "2.0", sketch_name="K\u00f6k-sensor \u2744", sketch_version="\u00e5"), 2: Node(2, 17, "2.1")}
+reg[1].add_child(0, 6, description="\u6e29\u5ea6")
+reg[1].children[0].values[0] = "21,5\u00b0"
+reg[2].add_child(3, 3, description="plain")
+if mode == "save":
+    asyncio.run(Persistence(reg, path).save())
+    print(json.dumps(plain(reg)))
+else:
+    got = {}
+    try:
+        asyncio.run(Persistence(got, path).load())
+        print(json.dumps(plain(got)))
+    except Exception as e:
+        print(json.dumps("raised " + type(e).__name__))
+"""
+
+
+def locale_roundtrips(base):
+    """save and load in processes whose default text encoding differs (UTF-8 / ASCII): a file
+    written by save is accepted by load and reproduces the registry whatever the locale."""
+    import os
+    import subprocess
+    import sys
+
+    envs = {"utf8": {"LC_ALL": "C.UTF-8", "PYTHONUTF8": "1"},
+            "ascii": {"LC_ALL": "C", "LANG": "C", "PYTHONUTF8": "0", "PYTHONCOERCECLOCALE": "0"}}
+    fs, n = [], 0
+
+    def run(mode, path, loc):
+        env = {k: v for k, v in os.environ.items() if not k.startswith(("LC_", "LANG", "PYTHONUTF8", "PYTHONCOERCE"))}
+        env.update(envs[loc])
+        r = subprocess.run([sys.executable, "-c", LOCALE_SCRIPT, mode, path], env=env, capture_output=True, text=True, timeout=60)
+        return (r.stdout.strip().splitlines() or ["no output: " + r.stderr.strip()[-200:]])[-1]
+
+    for sloc in envs:
+        for lloc in envs:
+            n += 1
+            path = os.path.join(base, f"loc{n}.json")
+            want = run("save", path, sloc)
+            got = run("load", path, lloc)
+            if got != want:
+                fs.append({"kind": "oracle", "sig": "C13:locale",
+                           "desc": f"registry with non-ASCII strings saved by a process with default encoding {sloc} and loaded by one with {lloc}: {got[:160]} (saved: {want[:80]})",
+                           "case": {"save_locale": sloc, "load_locale": lloc}})
+    seen = {}
+    for f in fs:
+        seen.setdefault(f["sig"], f)
+    return list(seen.values()), n
+
+
 def run(ctx, model_available=True):
     rng = rng_for(ctx.seed, "C13")
     files = Files()
@@ -298,6 +357,9 @@ def run(ctx, model_available=True):
     # a save while messages keep changing the registry (same event loop): the file must
     # hold ONE state the registry was in while save ran (the model's dump is a function
     # of one registry value: the snapshot is taken in one synchronous step)
+    lf, ln = locale_roundtrips(files.dir)
+    failures.extend(lf)
+    dist["locale_roundtrips"] = ln
     cf, cn = concurrent_saves(files.dir)
     failures.extend(cf)
     dist["saves_with_concurrent_changes"] = cn
